@@ -227,7 +227,6 @@ func body(c *hk.Ctx) {
 		}
 		nUp := c.W(3*len(leaves)+1, "updates")
 		var duelLeaves []int
-		familyDuel := false
 		if duel {
 			nUp = 2 + c.W(2, "duellists")
 			if nUp > len(leaves) {
@@ -242,37 +241,6 @@ func body(c *hk.Ctx) {
 				perm[i], perm[j] = perm[j], perm[i]
 			}
 			duelLeaves = perm[:nUp]
-			// family duel: the duellists are siblings below one aggregator that is not the root, and all
-			// of them bring a status (an aggregate that goes X -> Y -> X while a third update is under way)
-			if c.W(3, "family-duel") == 2 {
-				var fams [][]int
-				var walk func(n *node, depth int)
-				walk = func(n *node, depth int) {
-					var fam []int
-					for _, k := range n.Kids {
-						if len(k.Kids) == 0 {
-							for li, l := range leaves {
-								if l == k {
-									fam = append(fam, li)
-								}
-							}
-						}
-						walk(k, depth+1)
-					}
-					if depth > 0 && len(fam) >= 2 {
-						fams = append(fams, fam)
-					}
-				}
-				walk(root, 0)
-				if len(fams) > 0 {
-					fam := fams[c.W(len(fams), "family")]
-					if len(fam) > 3 {
-						fam = fam[:3]
-					}
-					duelLeaves, nUp, familyDuel = fam, len(fam), true
-					c.Count("probe.family_duel")
-				}
-			}
 			per = make([][]update, nUp)
 		}
 		for k := 0; k < nUp; k++ {
@@ -280,9 +248,7 @@ func body(c *hk.Ctx) {
 			if duel {
 				u.Leaf = duelLeaves[k]
 			}
-			if familyDuel {
-				u.Status = statuses[c.W(len(statuses), "status")].String()
-			} else if c.W(3, "state-or-status") != 0 {
+			if c.W(3, "state-or-status") != 0 {
 				u.State = states[c.W(len(states), "state")].String()
 			} else {
 				u.Status = statuses[c.W(len(statuses), "status")].String()
